@@ -223,6 +223,54 @@ fn crashes_in_subprocess<P: Prop>(prop: &P, case: &P::Case, tag: &str) -> bool {
     match st { Some(st) => child_crashed(&st), None => false }
 }
 
+/// does this case fail to return within `timeout_s` when executed alone in a process of its own?
+fn hangs_in_subprocess<P: Prop>(prop: &P, case: &P::Case, tag: &str, timeout_s: u64) -> bool {
+    let dir = verif_dir().join("replays"); let _ = std::fs::create_dir_all(&dir);
+    let tmp = dir.join(format!(".probe-{}-{}-{}.json", prop.id(), std::process::id(), tag));
+    let _ = std::fs::write(&tmp, serde_json::to_string(&json!({"property": prop.id(), "case": serde_json::to_value(case).unwrap()})).unwrap());
+    let st = spawn_self(&["replay-child".to_string(), tmp.to_string_lossy().to_string()], &[], timeout_s);
+    let _ = std::fs::remove_file(&tmp);
+    st.is_none()
+}
+fn hang_confirm_s() -> u64 { std::env::var("VERIF_HANG_CONFIRM_S").ok().and_then(|s| s.parse().ok()).unwrap_or(120) }
+/// the batch watchdog saw a run make no progress: decide between a violation (class `hang`) and a harness error
+fn confirm_hang<P: Prop>(prop: &Arc<P>, tier: Tier, note: &str, t0: Instant) -> ! {
+    let id = prop.id();
+    let txt = std::fs::read_to_string(note).unwrap_or_default(); let _ = std::fs::remove_file(note);
+    let cands: Vec<u64> = txt.split_whitespace().filter_map(|x| x.parse().ok()).collect();
+    let seed = verif_seed(); let confirm = hang_confirm_s();
+    // candidates are the runs that were stuck for at least half the watchdog time, lowest run index first
+    let found = cands.iter().copied().find(|&i| { let c = prop.gen(mix(seed, i), i, tier); hangs_in_subprocess(&**prop, &c, "hang", confirm) });
+    let Some(i) = found else {
+        outln!("HARNESS-ERROR runs {:?} made no progress inside the batch but each returns when executed alone: starved or too slow, not a hang", cands);
+        std::process::exit(2);
+    };
+    let run_seed = mix(seed, i);
+    let case = prop.gen(run_seed, i, tier);
+    // minimise: a candidate counts as hanging when it does not return within a short probe time; the result is confirmed again
+    let probe = (confirm / 8).max(10);
+    let mut cur = case.clone(); let mut execs = 0; let ts = Instant::now();
+    'outer: loop {
+        for (n, cand) in prop.shrink(&cur).into_iter().enumerate() {
+            if execs >= 40 || ts.elapsed().as_secs() > 300 { break 'outer; }
+            execs += 1;
+            if hangs_in_subprocess(&**prop, &cand, &format!("h{}", n), probe) { cur = cand; continue 'outer; }
+        }
+        break;
+    }
+    if execs > 0 && !hangs_in_subprocess(&**prop, &cur, "hangfinal", confirm) { cur = case; }
+    let v = Violation::new("hang", format!("executing this case alone in a fresh process does not return within {} s (the same run made no progress in the batch): non-termination, livelock or deadlock inside the system under test", confirm));
+    let p = write_replay(&**prop, &format!("{}", run_seed), run_seed, &cur, &v, &[]);
+    outln!("VIOLATION property={} replay={}", id, p);
+    outln!("  class=hang run_index={} run_seed={} shrink_execs={} {}", i, run_seed, execs, v.detail);
+    let ev = json!({ "property_id": id, "tier": tier.name(), "seed": seed as i64, "level": prop.level(),
+        "coverage": { "evaluations": i + 1, "distinct_nontrivial": 0, "rule": prop.rule(), "samples": [prop.sample(&cur)], "note": "batch stopped by a run that does not return; counts are lower bounds" },
+        "assumptions": prop.assumptions(), "wall_s": t0.elapsed().as_secs_f64(), "violations": 1 });
+    let evdir = verif_dir().join("evidence"); let _ = std::fs::create_dir_all(&evdir);
+    if std::env::var("VERIF_EVIDENCE_OFF").is_err() { let _ = std::fs::write(evdir.join(format!("{}.json", id)), serde_json::to_string_pretty(&ev).unwrap()); }
+    std::process::exit(1)
+}
+
 fn supervise<P: Prop>(prop: &Arc<P>, tier: Tier) -> ! {
     let id = prop.id();
     let t0 = Instant::now();
@@ -230,6 +278,7 @@ fn supervise<P: Prop>(prop: &Arc<P>, tier: Tier) -> ! {
     slots::create(&path);
     let exe = std::env::current_exe().expect("current_exe");
     let st = std::process::Command::new(exe).args(std::env::args().skip(1)).env("VERIF_CHILD", "1").env("VERIF_SLOTS", &path).status().expect("spawn batch child");
+    if st.code() == Some(3) { let _ = std::fs::remove_file(&path); confirm_hang(prop, tier, &format!("{}.hang", path.display()), t0); }
     if !child_crashed(&st) { let _ = std::fs::remove_file(&path); std::process::exit(st.code().unwrap()); }
     let inflight: Vec<u64> = slots::read(&path).into_iter().filter(|v| *v != 0).map(|v| v - 1).collect();
     let _ = std::fs::remove_file(&path);
@@ -257,7 +306,7 @@ fn supervise<P: Prop>(prop: &Arc<P>, tier: Tier) -> ! {
             "coverage": { "evaluations": i + 1, "distinct_nontrivial": 0, "rule": prop.rule(), "samples": [prop.sample(&cur)], "note": "batch aborted by a process crash; counts are lower bounds" },
             "assumptions": prop.assumptions(), "wall_s": t0.elapsed().as_secs_f64(), "violations": 1 });
         let evdir = verif_dir().join("evidence"); let _ = std::fs::create_dir_all(&evdir);
-        let _ = std::fs::write(evdir.join(format!("{}.json", id)), serde_json::to_string_pretty(&ev).unwrap());
+        if std::env::var("VERIF_EVIDENCE_OFF").is_err() { let _ = std::fs::write(evdir.join(format!("{}.json", id)), serde_json::to_string_pretty(&ev).unwrap()); }
         std::process::exit(1);
     }
     outln!("HARNESS-ERROR the batch process died ({}) and no in-flight run reproduces the crash in isolation", st);
@@ -376,15 +425,22 @@ pub fn run_check<P: Prop>(prop: P, tier: Tier) -> ! {
     loop {
         std::thread::sleep(Duration::from_millis(100));
         if handles.iter().all(|h| h.is_finished()) { break; }
-        for s in slots.iter() {
-            if let Some((i, st)) = *s.lock().unwrap() {
-                if st.elapsed().as_secs() >= hang_s {
+        let stuck: Vec<(u64, Instant)> = slots.iter().filter_map(|s| *s.lock().unwrap()).collect();
+        if stuck.iter().any(|(_, st)| st.elapsed().as_secs() >= hang_s) {
+            // report the lowest run index among the runs that have been stuck for a while (not whichever the watchdog saw first)
+            let mut cands: Vec<u64> = stuck.iter().filter(|(_, st)| st.elapsed().as_secs() * 2 >= hang_s).map(|(i, _)| *i).collect(); cands.sort();
+            if let Some(&i) = cands.first() {
+                {
                     let run_seed = mix(seed, i);
                     let case = prop.gen(run_seed, i, tier);
                     let dir = verif_dir().join("replays"); let _ = std::fs::create_dir_all(&dir);
                     let path = dir.join(format!("{}-hang-{}.json", id, run_seed));
                     let _ = std::fs::write(&path, serde_json::to_string_pretty(&json!({"property": id, "class": "hang", "run_seed": run_seed, "case": serde_json::to_value(&case).unwrap()})).unwrap());
-                    outln!("HARNESS-ERROR run {} (seed {}) made no progress for {} s; case written to {}", i, run_seed, hang_s, path.display());
+                    outln!("[{}] run {} (seed {}) made no progress for {} s; case written to {}", id, i, run_seed, hang_s, path.display());
+                    // the supervisor decides: a case that also fails to return in a process of its own is a violation
+                    // (class `hang`), one that returns there was starved by the batch and is a harness error
+                    if let Ok(sf) = std::env::var("VERIF_SLOTS") { let _ = std::fs::write(format!("{}.hang", sf), cands.iter().map(|c| c.to_string()).collect::<Vec<_>>().join(" ")); std::process::exit(3); }
+                    outln!("HARNESS-ERROR no supervisor to confirm the hang");
                     std::process::exit(2);
                 }
             }
@@ -491,6 +547,15 @@ pub fn replay_file<P: Prop>(prop: P, path: &str) -> ! {
     let prop = Arc::new(prop);
     if std::env::var("VERIF_CHILD").is_err() {
         let exe = std::env::current_exe().expect("current_exe");
+        let is_hang = std::fs::read_to_string(path).ok().and_then(|t| serde_json::from_str::<Value>(&t).ok()).map(|v| v["class"] == "hang").unwrap_or(false);
+        if is_hang {
+            let c = hang_confirm_s();
+            match spawn_self(&["replay-child".to_string(), path.to_string()], &[], c) {
+                None => { outln!("VIOLATION property={} replay={}", prop.id(), path); outln!("  class=hang replaying this case does not return within {} s", c); std::process::exit(1) }
+                Some(st) if child_crashed(&st) => { outln!("VIOLATION property={} replay={}", prop.id(), path); outln!("  class=crash replaying this case kills the process ({})", st); std::process::exit(1) }
+                Some(st) => { if st.code() == Some(0) { outln!("[{}] replay of {}: returns, no violation", prop.id(), path); } std::process::exit(st.code().unwrap()) }
+            }
+        }
         let st = std::process::Command::new(exe).args(["replay-child", path]).env("VERIF_CHILD", "1").status().expect("spawn replay child");
         if child_crashed(&st) { outln!("VIOLATION property={} replay={}", prop.id(), path); outln!("  class=crash replaying this case kills the process ({})", st); std::process::exit(1); }
         std::process::exit(st.code().unwrap());
